@@ -252,6 +252,10 @@ def check(ctx):
     ctx.ob("C17.R2", init, "_simulation_nodes = topological_sort(simulation graph of all "
                            "nodes)", ok_n, detail=short(sn or ()))
 
+    # ---- shared mechanisms: the neighbour's rules run as obligations of this property
+    ctx.include("C14", "C17.R3", only=['C14.R1'])
+    ctx.rule("R3", "shared mechanisms, run as obligations of this property: a transformed variable is the bijector image of the new variable, so it is simulated through it (C14.R1).")
+
 
 def _covers_inputs(call: ast.Call, tvars=None) -> bool:
     """self.update() | self.update(dist.name) | self.update(*(n.name for n in
